@@ -231,8 +231,12 @@ class LogStream:
 class World:
     """the simulated boundary for one run of firewall.main"""
 
-    def __init__(self, kernel, faults, snapshots=False, log=None):
+    def __init__(self, kernel, faults, snapshots=False, log=None, event=None):
         self.k = kernel
+        # a foreign tool changes the packet filter while the session runs: argv (hex tokens) of ONE command applied to the
+        # kernel when the helper reports STARTED; it is not a command of the session (no fault index, not in the trace)
+        self.event = event
+        self.event_rc = None
         self.faults = set(faults)
         self.n = 0
         self.trace = []
@@ -293,6 +297,8 @@ class World:
         self.trace.append("M:" + m)
         if m == "started":
             self.ops_started = (self.ops, self.ops_all)
+            if self.event:
+                self.event_rc = self.k.cmd([unhx(x) for x in self.event])[0]
 
 
 class SubprocessShim:
@@ -395,14 +401,14 @@ class Out:
         pass
 
 
-def run_real(kernel, method, state_enc, data, faults, snapshots=False, log=None):
+def run_real(kernel, method, state_enc, data, faults, snapshots=False, log=None, event=None):
     """method: nat|nft|tproxy|pf-freebsd|pf-openbsd|pf-darwin; data: the bytes the helper can read;
-    log: the logging environment (see World).
+    log: the logging environment (see World); event: a foreign command applied at STARTED (see World).
     returns dict(outcome, trace, final, fin_at, snaps, nlog, log_fired, ...)"""
     L = load_real()
     fw, pfm = L["firewall"], L["pf"]
     kernel.set(state_enc)
-    w = World(kernel, faults, snapshots, log)
+    w = World(kernel, faults, snapshots, log, event)
     L["shim"].world = w
     name = method
     if method.startswith("pf-"):
@@ -448,7 +454,7 @@ def run_real(kernel, method, state_enc, data, faults, snapshots=False, log=None)
     return {"outcome": outcome, "trace": w.trace, "final": kernel.get(), "ncmds": w.n, "fin_at": fin_at,
             "snaps": w.snap, "py": py, "crash": crash, "nlog": w.calls, "log_fired": w.fired, "log_nfired": w.nfired,
             "log_ops": w.ops, "log_ops_all": w.ops_all, "ops_started": w.ops_started, "log_anomaly": w.anomaly,
-            "log_fired_after_started": w.fired_after_started}
+            "log_fired_after_started": w.fired_after_started, "event_rc": w.event_rc}
 
 
 # ---------------------------------------------------------------- plans and dialogues
@@ -587,13 +593,13 @@ def diverting(st, own):
             for r in rs:
                 j = jump_target(r)
                 if j in names and tbl.get(j):
-                    return "%s: %s -> %s" % (key, n.decode(), j.decode())
+                    return "%s: %s -> %s" % (key, n.decode("latin-1"), j.decode("latin-1"))
     for n, t in st["nft"]:
         if n in own["nft"]:
-            return "nft table %s" % n.decode()
+            return "nft table %s" % n.decode("latin-1")
     for a, t in st["pf"]["anchors"]:
         if a in own["anchors"]:
-            return "pf anchor %s" % a.decode()
+            return "pf anchor %s" % a.decode("latin-1")
     return None
 
 
@@ -738,8 +744,48 @@ def rand_plan(rng, method, p, variant):
                 bogus=rng.random() < 0.15)
 
 
-def foreign_state(rng, st):
-    """foreign rules and chains in every table; mutates and returns st"""
+# free text as other tools put it into `-m comment --comment` (the kernel stores the bytes, `iptables -nL` prints them
+# verbatim): Latin-1, bytes that are not UTF-8 at all, valid multi-byte UTF-8, control characters (no NUL: C strings;
+# the line feed is finding F90 and is exercised by listing_correspondence only)
+ODD_INVALID = [b"r\xe8gle caf\xe9", b"\xff\xfe", b"\x80", b"\xbf\x80", b"\xc3", b"\xe2\x82", b"\xc0\xaf", b"\xed\xa0\x80",
+               b"\xf4\x90\x80\x80", b"gr\xfc\xdfe", b"\xa4\x99"]
+ODD_UTF8 = ["r\u00e8gle caf\u00e9".encode(), "\u20ac".encode(), "\U0001f600".encode(), "\u00a0\u2028".encode(), "\ufffd".encode(),
+            "\u4e2d\u6587".encode()]
+ODD_CTRL = [b"\x01\x02", b"\x07\x08", b"\t", b"\r", b"\x0b\x0c", b"\x1b[31m", b"\x7f", b"\x1c\x1d\x1e\x1f"]
+ODD_ASCII = [b"plain", b"a b  c", b"/* x */", b"Chain", b"(0 references)", b"-", b"%s", b"\\n"]
+
+
+def odd_text(rng, kind, port=None):
+    """kind: invalid (contains bytes that are not UTF-8) | utf8 (valid, non-ASCII) | ctrl | ascii | any"""
+    pools = {"invalid": [ODD_INVALID], "utf8": [ODD_UTF8], "ctrl": [ODD_CTRL], "ascii": [ODD_ASCII],
+             "any": [ODD_INVALID, ODD_UTF8, ODD_CTRL, ODD_ASCII], "valid": [ODD_UTF8, ODD_CTRL, ODD_ASCII]}[kind]
+    parts = [rng.choice(pools[0])] + [rng.choice(rng.choice(pools)) for _ in range(rng.randint(0, 3))]
+    if len(pools) > 1:
+        rng.shuffle(parts)
+    if port is not None and rng.random() < 0.4:
+        # the text of a chain header for the session's own chain, on the SAME line: must not be taken for one
+        parts.insert(rng.randint(0, len(parts)), rng.choice([b"Chain sshuttle-%d (0 references)", b"Chain sshuttle-m-%d (1 references)",
+                                                             b" Chain sshuttle-%d "]) % port)
+    out = rng.choice([b"", b" "]).join(parts)
+    return out if out != b"-j" else b"-j."
+
+
+def comment_rule(rng, kind, port=None, target=b"RETURN"):
+    return [b"-m", b"comment", b"--comment", odd_text(rng, kind, port), b"-j", target]
+
+
+def odd_chain_name(rng, kind, port):
+    """a legal foreign chain name (iptables refuses white space, nothing else; at most 28 bytes)"""
+    if kind == "invalid":
+        return rng.choice([b"caf\xe9", b"DOCKER-\xff\x80", b"sshuttle-%d\xe9" % port, b"\xe8\xe9", b"sshuttle-\xb9%d" % port])
+    if kind == "utf8":
+        return rng.choice(["caf\u00e9".encode(), "\u20ac-chain".encode(), ("sshuttle-%d\u00e9" % port).encode()])
+    return rng.choice([b"Chain", b"DOCKER", b"sshuttle-x", b"sshuttle-%d-x" % port, b"ssh\x01ttle", b"sshuttle-%d\x7f" % port])
+
+
+def foreign_state(rng, st, odd="any", port=1230):
+    """foreign rules and chains in every table; mutates and returns st.  odd: which bytes the free text of foreign
+    rules and the foreign chain names carry (any | valid = everything that still is valid UTF-8 | ascii)"""
     for key in ("v6nat", "v6mangle", "v4nat", "v4mangle"):
         t = dict(st[key])
         order = [n for n, _ in st[key]]
@@ -748,6 +794,18 @@ def foreign_state(rng, st):
         t[fc] = [[b"-j", b"RETURN", b"-p", b"tcp"]]
         for b in (b"OUTPUT", b"PREROUTING"):
             t[b] = list(t[b]) + [[b"-j", fc], [b"-p", b"udp", b"-j", b"ACCEPT"]][: rng.randint(1, 2)]
+        if odd != "ascii":
+            kinds = ["invalid", "utf8", "ctrl", "ascii"] if odd == "any" else ["utf8", "ctrl", "ascii"]
+            # a second foreign chain with an odd (but legal) name, jumped to from a built-in chain
+            nm = odd_chain_name(rng, rng.choice(kinds), port)
+            if nm not in t:
+                order.append(nm)
+                t[nm] = [comment_rule(rng, rng.choice(kinds), port)]
+                t[rng.choice([b"OUTPUT", b"PREROUTING"])].append([b"-j", nm])
+            # odd free text in the built-in chains (before and after where the session hooks in) and in the foreign chain
+            for b in (b"OUTPUT", b"PREROUTING", fc):
+                for _ in range(rng.randint(0, 2)):
+                    t[b].insert(rng.randint(0, len(t[b])), comment_rule(rng, rng.choice(kinds), port))
         st[key] = [(n, t[n]) for n in order]
     st["nft"].append((b"filter", [(b"input", [[b"tcp dport 22 accept"]])]))
     st["pf"]["anchors"].append((b"com.apple", b"pass all\n"))
@@ -797,6 +855,7 @@ def _correspondence(ctx, rng, quick, kern):
     nplans = 3 if quick else 40
     pending = []          # (model line repaired, model line asfound, real observation, case info)
     pendingL = []         # (SESSIONL line, real observation, case info): runs compared with the model WITH log points
+    pendingE = []         # (model line, real observation, case info): runs with a foreign change while the session runs
 
     def one(plan, bodies, cut, faults, st_enc, kind, snapshots=False):
         real = run_real(kern, plan.method, st_enc, plan.data(cut), faults, snapshots)
@@ -813,8 +872,12 @@ def _correspondence(ctx, rng, quick, kern):
             # initial states
             st0 = empty_state()
             skind = pi % 4
+            # free text of foreign rules / foreign chain names: kind 1 and 3 any bytes (incl. not UTF-8), kind 2 everything
+            # that still is valid UTF-8 (so that bytes which are not can APPEAR while the session runs)
+            odd = {0: "none", 1: "any", 2: "valid", 3: "any"}[skind]
             if skind >= 1:
-                foreign_state(rng, st0)
+                foreign_state(rng, st0, odd, p)
+            ctx.count("foreign_text_%s" % odd)
             if pf:
                 st0["pf"]["on"] = rng.random() < 0.5
                 st0["pf"]["skip"] = rng.random() < 0.4
@@ -826,6 +889,8 @@ def _correspondence(ctx, rng, quick, kern):
             if skind >= 2:
                 q = p * 10 if p < 6000 else p + 1
                 st_enc = other_instance(kern, method, q, st_enc)
+                if not pf and method != "nft":
+                    st_enc = odd_in_other_instance(rng, kern, method, q, st_enc, odd, p)
             ctx.count("method_%s" % method)
             ctx.count("state_kind_%d" % skind)
             nl = len(plan.lines())
@@ -862,8 +927,11 @@ def _correspondence(ctx, rng, quick, kern):
                     one(plan, bodies, rng.randint(nh, nl), rng.sample(range(N), 2), st_enc, "fault2")
                     ctx.count("double_faults")
             log_dimension(ctx, rng, quick, kern, plan, bodies, st_enc, base, pending, pendingL, pi)
+            if method in ("nat", "tproxy"):
+                event_dimension(ctx, rng, quick, kern, plan, bodies, st_enc, base, pendingE)
 
     log_correspondence(ctx)
+    listing_correspondence(ctx, rng, quick, kern)
 
     # ---- model side in one batch
     lines = [p[0] for p in pending]
@@ -911,11 +979,33 @@ def _correspondence(ctx, rng, quick, kern):
                          {"outcome": m["outcome"], "nlog": m["nlog"], "ncmds": m["ncmds"],
                           "trace_at": m["trace"][first:first + 3] if first is not None else None})
 
+    # ---- sessions with a foreign change after STARTED: the model has no such event; the session's own commands are the
+    #      same, and the final state is the model's final state with the foreign command applied to it
+    outsE = ctx.run_driver([p[0] for p in pendingE])
+    for (line, real, info), out in zip(pendingE, outsE):
+        m = parse_session(out)
+        exp = m["final"]
+        if real["event_rc"] is not None:
+            kern.set(m["final"])
+            kern.cmd([unhx(x) for x in info["event"]])
+            exp = kern.get()
+        ctx.count("event_runs_compared")
+        if (real["outcome"], tuple(real["trace"]), real["ncmds"], real["fin_at"], real["final"]) != \
+                (m["outcome"], tuple(m["trace"]), m["ncmds"], m["fin_at"], exp):
+            first = next((i for i, (x, y) in enumerate(zip(real["trace"] + ["<end>"], m["trace"] + ["<end>"])) if x != y), None)
+            ctx.disagree("session with a foreign rule appearing while it runs: trace / final state",
+                         {k: info.get(k) for k in ("plan", "cut", "faults", "kind", "event_note")},
+                         {"outcome": real["outcome"], "crash": real["crash"], "ncmds": real["ncmds"], "first_diff_at": first,
+                          "trace_at": real["trace"][first:first + 3] if first is not None else None, "final": real["final"][:300]},
+                         {"outcome": m["outcome"], "ncmds": m["ncmds"],
+                          "trace_at": m["trace"][first:first + 3] if first is not None else None, "final": exp[:300]})
+        pending.append((line, line, real, info))       # the oracles below apply (against the state incl. the foreign change)
+
     # ---- oracles on the implementation alone
     for (l1, l2, real, info) in pending:
         plan = plan_from_dict(info["plan"])
         ncmd = real["ncmds"]
-        ctx.case((plan.desc(), info["cut"], tuple(info["faults"]), info["state"], repr(info.get("log"))),
+        ctx.case((plan.desc(), info["cut"], tuple(info["faults"]), info["state"], repr(info.get("log")), repr(info.get("event"))),
                  nontrivial=bool(ncmd) or 0 < info["cut"] < len(plan.header()),
                  sample={"plan": plan.desc(), "kind": info["kind"], "cut": info["cut"], "faults": info["faults"],
                          "outcome": real["outcome"], "commands": ncmd, "trace_head": real["trace"][:4]}
@@ -1141,6 +1231,188 @@ def log_correspondence(ctx):
     ctx.count("log_ast_checked")
 
 
+# ---------------------------------------------------------------- foreign text with odd bytes; foreign changes mid-session
+def state_with_event(kern, st_enc, event):
+    kern.set(st_enc)
+    kern.cmd([unhx(x) for x in event])
+    return kern.get()
+
+
+def odd_in_other_instance(rng, kern, method, q, st_enc, odd, port):
+    """an administrator annotated the OTHER instance's chains: comment rules with odd bytes inside sshuttle-<q> etc."""
+    if odd in ("none", "ascii"):
+        return st_enc
+    kinds = ["invalid", "utf8", "ctrl"] if odd == "any" else ["utf8", "ctrl"]
+    kern.set(st_enc)
+    table, chains = ("nat", [b"sshuttle-%d" % q]) if method == "nat" else ("mangle", [b"sshuttle-m-%d" % q, b"sshuttle-t-%d" % q])
+    for prog in (b"iptables", b"ip6tables"):
+        for ch in chains:
+            if rng.random() < 0.7:
+                kern.cmd([prog, b"-w", b"-t", table.encode(), b"-A", ch] + comment_rule(rng, rng.choice(kinds), port))
+    return kern.get()
+
+
+def event_dimension(ctx, rng, quick, kern, plan, bodies, st_enc, base, pendingE):
+    """nat / tproxy: another tool appends a rule — whose comment carries odd bytes — to a chain the helper does not own,
+    in the table the helper lists at tear-down or in another one, between STARTED and the end of the session."""
+    nl, nh = len(plan.lines()), len(plan.header())
+    N, fin_at = base["ncmds"], base["fin_at"]
+    probed = "nat" if plan.method == "nat" else "mangle"
+    s0 = dec_state(st_enc)
+    cases = [("invalid", probed), ("invalid", probed), ("utf8", probed), ("ctrl", probed), ("ascii", probed),
+             ("invalid", "mangle" if probed == "nat" else "nat")]
+    if not quick:
+        cases += [(rng.choice(["invalid", "utf8", "ctrl", "any"]), probed) for _ in range(6)]
+    for kind, table in cases:
+        fam = rng.choice([f for f, on in (("6", plan.on6()), ("4", plan.on4())) if on] or ["4"])
+        key = "v%s%s" % (fam, table)
+        foreign = [n for n, _ in s0[key] if n not in own_names(plan)[key] and not n.startswith(b"sshuttle-")]
+        chain = rng.choice(foreign)
+        prog = b"ip6tables" if fam == "6" else b"iptables"
+        event = [hx(x) for x in [prog, b"-w", b"-t", table.encode(), rng.choice([b"-A", b"-A", b"-I"]), chain]]
+        if unhx(event[4]) == b"-I":
+            event.append(hx(b"1"))
+        event += [hx(x) for x in comment_rule(rng, kind, plan.p6 or plan.p4)]
+        cut = nl if rng.random() < 0.7 else rng.randint(nh, nl)
+        faults = [rng.randrange(fin_at, N)] if N > fin_at and rng.random() < 0.25 else []
+        real = run_real(kern, plan.method, st_enc, plan.data(cut), faults, event=event)
+        note = ("while the session runs another tool issues: %s" % b" ".join(unhx(x) for x in event).decode("latin-1").encode("unicode_escape").decode())
+        info = {"plan": plan.as_dict(), "cut": cut, "faults": sorted(faults), "state": st_enc, "kind": "foreign-event",
+                "event": event, "event_note": note}
+        if real["event_rc"] is not None:
+            if real["event_rc"] != 0:
+                ctx.disagree("the foreign command of the harness failed", note, real["event_rc"], 0)
+            info["state_with_event"] = state_with_event(kern, st_enc, event)
+            ctx.count("event_applied_after_STARTED")
+        else:
+            ctx.count("event_not_reached_session_never_started")
+        pendingE.append((session_line(plan, bodies, cut, faults, st_enc, True), real, info))
+        ctx.count("event_runs")
+        ctx.count("event_text_%s" % kind)
+        ctx.count("event_table_%s" % ("listed_at_tear_down" if table == probed else "other"))
+        ctx.count("event_op_%s" % unhx(event[4]).decode())
+        if faults:
+            ctx.count("event_with_teardown_command_fault")
+
+
+def real_chain_exists(kern, table_enc, name):
+    """the real sshuttle.linux.ipt_chain_exists on the listing the kernel model prints for the table -> True | False | 'RAISES <cls>'"""
+    L = load_real()
+    st = empty_state()
+    st["v4nat"] = dec_table(table_enc)
+    kern.set(enc_state(st))
+    w = World(kern, [])
+    L["shim"].world = w
+    try:
+        return bool(L["linux"].ipt_chain_exists(AF_INET, "nat", name))
+    except BaseException as e:      # noqa
+        return "RAISES " + type(e).__name__
+
+
+def listing_correspondence(ctx, rng, quick, kern):
+    """ties the model's listing / decode / parse (chain_in_listing, chain_in_output) to sshuttle/linux.py ipt_chain_exists:
+    the real function on tables whose rule text and foreign chain names carry arbitrary bytes; a fail-closed ast check of the
+    decode mode; finding F90 (a line feed in a comment)."""
+    L = load_real()
+    linux = L["linux"]
+    cases = []
+    for i in range(150 if quick else 3000):
+        port = rng.choice([1230, 12300, 1024, 8080])
+        st = empty_state()
+        mode = rng.choice(["any", "any", "valid", "ascii"])
+        foreign_state(rng, st, mode, port)
+        tbl = list(st["v4nat"])
+        own = [b"sshuttle-%d" % port, b"sshuttle-m-%d" % port, b"sshuttle-t-%d" % port, b"sshuttle-d-%d" % port]
+        present = [n for n in own if rng.random() < 0.35]
+        for n in present:
+            tbl.insert(rng.randint(4, len(tbl)), (n, [comment_rule(rng, "any", port)] if rng.random() < 0.3 else []))
+        if rng.random() < 0.3:      # the neighbour port: sshuttle-12300 vs sshuttle-1230
+            tbl.append((b"sshuttle-%d0" % port, []))
+        lf = rng.random() < 0.12    # F90: a line feed inside a comment, followed by a forged header
+        if lf:
+            forged = rng.choice(own)
+            tbl[rng.randint(0, 3)][1].append([b"-m", b"comment", b"--comment",
+                                              odd_text(rng, "any") + b"\nChain " + forged + b" (0 references)", b"-j", b"RETURN"])
+        probe = rng.choice(own + [b"Chain", b"DOCKER", b"sshuttle-%d0" % port])
+        cases.append((enc_table(tbl), probe, lf))
+    outs = ctx.run_driver(["CHAINEX %s %s" % (hx(n), t) for t, n, _ in cases])
+    fooled = 0
+    for (t, n, lf), o in zip(cases, outs):
+        line_m, byte_m = [x == "1" for x in o.split(" ")]
+        member = any(c == n for c, _ in dec_table(t))
+        got = real_chain_exists(kern, t, n.decode())
+        ctx.count("chain_probe_cases")
+        ctx.count("chain_probe_%s" % ("with_line_feed_in_comment" if lf else "without_line_feed"))
+        ctx.count("chain_probe_member" if member else "chain_probe_absent")
+        if got != byte_m:
+            ctx.disagree("ipt_chain_exists vs chain_in_output (decode, split, startswith on the raw listing)",
+                         {"table": t[:600], "name": n.decode()}, got, byte_m)
+        if not lf:
+            if line_m != byte_m or byte_m != member:
+                ctx.disagree("model: line-level test / byte-level test / membership differ on a listing without line feeds",
+                             {"table": t[:600], "name": n.decode()}, (line_m, byte_m), member)
+            # oracle on the implementation alone: the probe must be exact membership, whatever bytes the foreign text has
+            if got != member:
+                ctx.violation("ipt_chain_exists %s on an `iptables -nL` listing whose foreign rules / chain names carry bytes "
+                              "outside ASCII (the helper then skips or mis-runs that family's tear-down: own chains are left behind)"
+                              % ("raises %s" % got.split(" ")[1] if isinstance(got, str) else "gives the wrong answer"),
+                              {"chain_probe": {"table": t, "name": n.decode(), "member": member}, "got": got,
+                               "listing": kern.ask("LISTING " + t)[:1200]})
+        elif got != member:
+            fooled += 1
+    if fooled:
+        ctx.count("chain_probe_fooled_by_line_feed_F90", fooled)
+        known_once(ctx, "F90", "a foreign rule whose comment contains a line feed followed by 'Chain sshuttle-<port> (' makes "
+                   "ipt_chain_exists report a chain that does not exist (nat: the session cannot start; nothing is left behind)")
+    # F90 on a whole session: nothing is created, nothing is left behind
+    plan = Plan("nat", 0, 1230, [], [(8, 0, "10.0.0.0", 0, 0)], [], [])
+    st = empty_state()
+    st["v4nat"][2][1].append([b"-m", b"comment", b"--comment", b"x\nChain sshuttle-1230 (0 references)", b"-j", b"RETURN"])
+    enc = enc_state(st)
+    r = run_real(kern, "nat", enc, plan.data(len(plan.lines())), [])
+    ctx.count("f90_session_%s" % ("cannot_start" if "M:started" not in r["trace"] else "starts"))
+    if r["final"] != enc:
+        ctx.violation("with a forged chain header in a foreign comment the nat session leaves the packet filter changed",
+                      {"plan": plan.as_dict(), "cut": len(plan.lines()), "faults": [], "state": enc})
+    # fail-closed look at the source of ipt_chain_exists: output.decode('ASCII', errors='replace').split('\n') ... startswith('Chain %s ' % name)
+    problems = []
+    try:
+        tree = ast.parse(open(linux.__file__).read())
+        fn = [x for x in tree.body if isinstance(x, ast.FunctionDef) and x.name == "ipt_chain_exists"]
+        if len(fn) != 1:
+            problems.append("%d definitions of ipt_chain_exists" % len(fn))
+        else:
+            calls = [x for x in ast.walk(fn[0]) if isinstance(x, ast.Call) and isinstance(x.func, ast.Attribute)]
+            dec = [x for x in calls if x.func.attr == "decode"]
+            if len(dec) != 1:
+                problems.append("%d decode calls" % len(dec))
+            else:
+                d = dec[0]
+                args = [a.value if isinstance(a, ast.Constant) else None for a in d.args]
+                kw = {k.arg: (k.value.value if isinstance(k.value, ast.Constant) else None) for k in d.keywords}
+                codec = args[0] if args else kw.get("encoding")
+                errors = args[1] if len(args) > 1 else kw.get("errors")
+                if not isinstance(codec, str) or codec.lower().replace("_", "-") not in ("ascii", "us-ascii"):
+                    problems.append("decode codec %r (model: ASCII)" % (codec,))
+                if errors != "replace":
+                    problems.append("decode errors=%r (model: 'replace', a total decoder)" % (errors,))
+                if set(kw) - {"encoding", "errors"} or len(args) > 2:
+                    problems.append("unexpected decode arguments")
+            sp = [x for x in calls if x.func.attr in ("split", "splitlines")]
+            if len(sp) != 1 or sp[0].func.attr != "split" or len(sp[0].args) != 1 or sp[0].keywords or \
+                    not isinstance(sp[0].args[0], ast.Constant) or sp[0].args[0].value != "\n":
+                problems.append("lines are not obtained by exactly one .split('\\n')")
+            sw = [x for x in calls if x.func.attr == "startswith"]
+            if len(sw) != 1 or len(sw[0].args) != 1 or ast.unparse(sw[0].args[0]) != "'Chain %s ' % name":
+                problems.append("test is not line.startswith('Chain %%s ' %% name): %s" % [ast.unparse(x) for x in sw])
+    except (OSError, SyntaxError) as e:
+        problems.append(repr(e))
+    if problems:
+        ctx.disagree("ipt_chain_exists decode / split / test (ast)", linux.__file__, problems,
+                     "output.decode('ASCII', errors='replace').split('\\n'); line.startswith('Chain %s ' % name)")
+    ctx.count("listing_ast_checked")
+
+
 def check_bodies(ctx, plan, bodies):
     """assumption of the theorems: body rules jump only to built-in targets, or from the tproxy chain to the divert chain"""
     own = own_names(plan)
@@ -1161,11 +1433,16 @@ def check_bodies(ctx, plan, bodies):
 
 def oracle(ctx, kern, plan, info, real):
     own = own_names(plan)
-    s0 = dec_state(info["state"])
+    # a foreign change while the session ran is part of "what the helper does not own": the reference state includes it
+    s0 = dec_state(info.get("state_with_event") or info["state"])
     fin = dec_state(real["final"])
     want = erase(s0, own)
     pf = plan.method.startswith("pf")
     rep = {"plan": info["plan"], "cut": info["cut"], "faults": info["faults"], "state": info["state"]}
+    if info.get("event"):
+        rep["event"] = info["event"]
+        rep["event_note"] = info.get("event_note", "") + "; outcome=%s crash=%s commands=%d of which tear-down=%d" % (
+            real["outcome"], real.get("crash"), real["ncmds"], real["ncmds"] - real["fin_at"])
     if info.get("log"):
         rep["log"] = info["log"]
         lg = info["log"]
@@ -1289,6 +1566,14 @@ def replay(ctx, rp):
         got, _ = real_log_call(**r["log_call"])
         print("helpers.log on the failing stream:", got)
         return got != "RETURN"
+    if "chain_probe" in r:
+        kern = Kernel(ctx.driver)
+        try:
+            got = real_chain_exists(kern, r["chain_probe"]["table"], r["chain_probe"]["name"])
+        finally:
+            kern.close()
+        print("ipt_chain_exists:", got, "chain really present:", r["chain_probe"]["member"])
+        return got != r["chain_probe"]["member"]
     if "plan" not in r:
         print("nothing replayable in", rp.get("kind"))
         return False
@@ -1299,9 +1584,12 @@ def replay(ctx, rp):
             real = run_real(kern, plan.method, r["state"], plan.data(len(plan.header()))[: r["bytes"]], [])
             print("commands issued:", real["ncmds"])
             return bool(real["ncmds"])
-        real = run_real(kern, plan.method, r["state"], plan.data(r["cut"]), r["faults"], snapshots=True, log=r.get("log"))
+        real = run_real(kern, plan.method, r["state"], plan.data(r["cut"]), r["faults"], snapshots=not r.get("event"),
+                        log=r.get("log"), event=r.get("event"))
         info = {"plan": r["plan"], "cut": r["cut"], "faults": r["faults"], "state": r["state"], "kind": "replay",
-                "log": r.get("log")}
+                "log": r.get("log"), "event": r.get("event")}
+        if r.get("event") and real["event_rc"] is not None:
+            info["state_with_event"] = state_with_event(kern, r["state"], r["event"])
         before = len(ctx.violations)
         oracle(ctx, kern, plan, info, real)
         for what, _ in ctx.violations[before:]:
